@@ -33,7 +33,12 @@ def cases(tier):
         for dims in (itertools.product([2, 3], repeat=d) if d < 5 else [(2,) * 5]):
             if d == 4 and np.prod(dims) > 36:
                 continue
-            for hk in ('dense-real', 'dense-complex', 'local-real', 'local-complex'):
+            hks = ['dense-real', 'dense-complex', 'local-real', 'local-complex', 'dense-degenerate']
+            if len(set(dims)) == 1 and d >= 2:
+                hks += ['local-identical']           # identical non-interacting sites: highly degenerate spectrum
+                if dims[0] == 2:
+                    hks += ['heisenberg']
+            for hk in hks:
                 for rk in admissible_ranks(list(dims)):
                     for h in (0.05, 0.3):
                         for nz in (0, 2):
@@ -88,14 +93,34 @@ def make_H(rng, dims, kind):
     def herm(k):
         a = rng.standard_normal((k, k)) + (1j * rng.standard_normal((k, k)) if cplx else 0)
         return (a + a.conj().T) / 2
+    if kind == 'dense-degenerate':
+        # Hermitian with the repeated eigenvalues +1, +1, -1, -1, 0.5, 0.5, ... (projected Hamiltonians inherit the ties)
+        cplx = True
+        q_ = np.linalg.qr(rng.standard_normal((n, n)) + 1j * rng.standard_normal((n, n)))[0]
+        ev = np.array(([1.0, 1.0, -1.0, -1.0, 0.5, 0.5] * n)[:n])
+        H = (q_ * ev) @ q_.conj().T
+        H = (H + H.conj().T) / 2
+        return TT(H.reshape(dims + dims)), H
+    if kind == 'heisenberg':
+        sx = np.array([[0, 1], [1, 0]], dtype=complex); sy = np.array([[0, -1j], [1j, 0]]); sz = np.diag([1.0 + 0j, -1.0])
+        H = np.zeros((n, n), dtype=complex)
+        for i in range(d - 1):
+            for p_ in (sx, sy, sz):
+                H += np.kron(np.kron(np.eye(2 ** i), np.kron(p_, p_)), np.eye(2 ** (d - i - 2)))
+        H = H / np.linalg.norm(H, 2)
+        return TT(H.reshape(dims + dims)), H
     if kind.startswith('dense'):
         H = herm(n); H = 2 * H / np.linalg.norm(H, 2)
         return TT(H.reshape(dims + dims)), H
     # non-interacting: sum_i h_i, built as a TT sum of rank-1 operators
     op = None
+    h_same = None
+    if kind == 'local-identical':
+        cplx = True
+        h_same = herm(dims[0]); h_same = h_same / np.linalg.norm(h_same, 2)
     for i in range(d):
         cores = [np.eye(m).reshape(1, m, m, 1) for m in dims]
-        hi = herm(dims[i]); hi = hi / np.linalg.norm(hi, 2)
+        hi = herm(dims[i]) if h_same is None else h_same; hi = hi / np.linalg.norm(hi, 2)
         cores[i] = hi.reshape(1, dims[i], dims[i], 1).astype(complex if cplx else float)
         t = TT([c.astype(complex) if cplx else c for c in cores])
         op = t if op is None else op + t
@@ -185,7 +210,7 @@ def run_case(case, seed):
                 check_list(key, sol, True, False)
     # Krylov (one step), every dimension
     if nz == 0 or True:
-        for dim in range(2, min(N, 16) + 1):      # Lanczos without re-orthogonalisation: full-space exactness only claimed for N <= 16
+        for dim in range(2, min(N, 16) + (3 if N <= 9 else 1)):      # Lanczos without re-orthogonalisation: full-space exactness only claimed for N <= 16; dimensions N+1, N+2 span it as well
             key = 'krylov' + o1
             with r.op(key + ':call'):
                 y = ode.krylov(op, x0t, dim, h, threshold=1e-14, max_rank=50, normalize=nz)
@@ -193,7 +218,7 @@ def run_case(case, seed):
                 if r.true(key + ':meta', mp is None, mp) and r.true(key + ':dims', list(y.row_dims) == list(dims)):
                     v = vec(y)
                     r.true(key + ':norm', abs(np.linalg.norm(v) - 1) <= 1e-7, 'dimension %d norm %r' % (dim, np.linalg.norm(v)))
-                    if dim == N:
-                        r.close(key + ':exact-full-space', v, exact[1], 1e-7, 'dimension %d' % dim)
+                    if dim >= N:
+                        r.close(key + ':exact-full-space', v, exact[1], 1e-7, 'dimension %d (state space %d)' % (dim, N))
     r.true('inputs-unchanged', unchanged(op, sO) and unchanged(x0t, sX), 'operator or initial state modified')
     return r
